@@ -60,6 +60,98 @@ theorem elemArr_narrow {st : StructTable} {F : Nat} (hF : NarrowFix st F) (b : S
       have : narrow st F ⟨b, m, a + 1⟩ (.obj kvs) = .null := by rw [hF]; simp [atBase, mapArr]
       simp [elemAt, this, narrow_null hF]
 
+theorem pathTy_append (st : StructTable) (path : List String) :
+    ∀ (t : Ty) (f : String), pathTy st t (path ++ [f]) = projTy1 st (pathTy st t path) f := by
+  induction path with
+  | nil => intro t f; simp [pathTy]
+  | cons g r ih => intro t f; simp [pathTy, ih]
+
+theorem Sub.projTy1 {st : StructTable} (hst : StructsOk st) {t0 t : Ty} (h : Sub st t0 t) (f : String)
+    (ft : Ty) (hf : fieldTy st t.base f = some ft) : Sub st (projTy1 st t0 f) (projTy1 st t f) := by
+  obtain ⟨ps', p', hl', hp', hpn', hpt', _⟩ := fieldTy_mem st _ _ _ hf
+  obtain ⟨ps, hl, hview⟩ := Sub.members hst h ps' hl'
+  obtain ⟨p, hp, hpn, hfind, hsub⟩ := hview p' hp'
+  have hf0 : fieldTy st t0.base f = some p.ty := by
+    have := fieldTy_of_mem st hst t0.base ps hl p hp
+    rwa [hpn, hpn'] at this
+  obtain ⟨d1, d2⟩ := h.dims
+  obtain ⟨e1, e2⟩ := hsub.dims
+  unfold Martian.Dataflow.projTy1
+  rw [hf0, hf]
+  simp only
+  rw [hpt'] at hsub e1 e2
+  by_cases hz : t0.mapDim = 0
+  · have hz' : t.mapDim = 0 := by omega
+    simp only [hz, hz', if_true]
+    rw [← e1, ← e2, ← d2]
+    exact hsub.redim _ _
+  · have hz' : ¬ t.mapDim = 0 := by omega
+    simp only [hz, hz', if_false]
+    rw [← e2, ← d1, ← d2]
+    exact hsub.redim _ _
+
+
+theorem Sub.fieldTy_isSome {st : StructTable} (hst : StructsOk st) {t0 t : Ty} (h : Sub st t0 t) (f : String)
+    (ft : Ty) (hf : fieldTy st t.base f = some ft) : (fieldTy st t0.base f).isSome := by
+  obtain ⟨ps', p', hl', hp', hpn', hpt', _⟩ := fieldTy_mem st _ _ _ hf
+  obtain ⟨ps, hl, hview⟩ := Sub.members hst h ps' hl'
+  obtain ⟨p, hp, hpn, hfind, hsub⟩ := hview p' hp'
+  have := fieldTy_of_mem st hst t0.base ps hl p hp
+  rw [hpn, hpn'] at this
+  simp [this]
+
+theorem Sub.pathTy {st : StructTable} (hst : StructsOk st) : ∀ (path : List String) {t0 t : Ty}, Sub st t0 t →
+    FieldsExist st t path → FieldsExist st t0 path ∧ Sub st (pathTy st t0 path) (pathTy st t path)
+  | [], _, _, h, _ => ⟨trivial, h⟩
+  | f :: r, t0, t, h, hp => by
+    simp only [FieldsExist] at hp
+    cases hf : fieldTy st t.base f with
+    | none => simp [hf] at hp
+    | some ft =>
+      have h1 := Sub.projTy1 hst h f ft hf
+      have h2 := Sub.fieldTy_isSome hst h f ft hf
+      have ih := Sub.pathTy hst r h1 hp.2
+      exact ⟨⟨h2, ih.1⟩, ih.2⟩
+
+/-- "no typed map below" is inherited by the types a value can be narrowed to -/
+theorem NoMapBelow.sub {st : StructTable} (hst : StructsOk st) {t t' : Ty} (h : NoMapBelow st t)
+    (hs : Sub st t t') : NoMapBelow st t' := by
+  intro path hp
+  obtain ⟨h1, h2⟩ := Sub.pathTy hst path hs hp
+  rw [← h2.dims.1]
+  exact h path h1
+
+theorem narrow_mapTy_nonobj {st : StructTable} {F : Nat} (hF : NarrowFix st F) (b : String) (a : Nat) (v : J)
+    (hv : ∀ kvs, v ≠ .obj kvs) (hd : v ≠ .dnull) : narrow st F ⟨b, a + 1, 0⟩ v = .null := by
+  rw [hF]
+  cases v with
+  | obj kvs => exact absurd rfl (hv kvs)
+  | dnull => exact absurd rfl hd
+  | null => simp [atBase, mapArr, mapObj]
+  | atom s => simp [atBase, mapArr, mapObj]
+  | arr xs => simp [atBase, mapArr, mapObj]
+
+theorem elemMap_narrow {st : StructTable} {F : Nat} (hF : NarrowFix st F) (b : String) (a : Nat) (v : J)
+    (ix : Idx) : narrow st F ⟨b, 0, a⟩ (elemMap v ix) = elemMap (narrow st F ⟨b, a + 1, 0⟩ v) ix := by
+  cases ix with
+  | none => simp [elemMap, narrow_dnull hF]
+  | i n => simp [elemMap, narrow_dnull hF]
+  | k s =>
+    simp only [elemMap, elemAt]
+    cases v with
+    | obj kvs =>
+      rw [narrow_obj hF]
+      simp only [J.field, Proofs.ResolverForks.lookup_map_snd]
+      cases kvs.lookup s <;> simp [narrow_null hF]
+    | dnull => simp [J.field, narrow_dnull hF]
+    | null => simp [J.field, narrow_null hF]
+    | atom x =>
+      rw [narrow_mapTy_nonobj hF b a _ (by simp) (by simp)]
+      simp [J.field, narrow_null hF]
+    | arr xs =>
+      rw [narrow_mapTy_nonobj hF b a _ (by simp) (by simp)]
+      simp [J.field, narrow_null hF]
+
 section L1
 variable (st : StructTable) (hst : StructsOk st) (F : Nat) (hF : NarrowFix st F) (ρ : Store)
 include hst hF
@@ -98,17 +190,26 @@ theorem narrow_evalRT :
     obtain ⟨b, m, a⟩ := t
     obtain ⟨b', m', a'⟩ := t'
     simp only [HasTyR] at h
-    obtain ⟨ha, hm, hk⟩ := h
-    obtain ⟨hd1, hd2⟩ := hs.dims
-    simp only at hd1 hd2 ha hm
-    subst hd1; subst hd2; subst ha
-    cases m with
-    | zero => exact absurd rfl hm
-    | succ k =>
-      have ih := narrow_evalRTFields kvs ⟨b, 0, k⟩ ⟨b', 0, k⟩ f hk (hs.redim 0 k)
-      have c : ((0 : Nat) == 0 && (k + 1 != 0)) = true := by simp
-      simp only [evalRT, c, if_true, Nat.add_sub_cancel, narrow_obj hF, ih.1, HasTyR]
-      exact ⟨trivial, trivial, by simp, ih.2⟩
+    rcases h with ⟨ha, hm, hk⟩ | ⟨ha, hm, hl, hj⟩
+    · obtain ⟨hd1, hd2⟩ := hs.dims
+      simp only at hd1 hd2 ha hm
+      subst hd1; subst hd2; subst ha
+      cases m with
+      | zero => exact absurd rfl hm
+      | succ k =>
+        have ih := narrow_evalRTFields kvs ⟨b, 0, k⟩ ⟨b', 0, k⟩ f hk (hs.redim 0 k)
+        have c : ((0 : Nat) == 0 && (k + 1 != 0)) = true := by simp
+        simp only [evalRT, c, if_true, Nat.add_sub_cancel, narrow_obj hF, ih.1, HasTyR]
+        exact ⟨trivial, Or.inl ⟨trivial, by simp, ih.2⟩⟩
+    · -- a reference-free literal at an opaque type: the destination is opaque too
+      obtain ⟨ha', hm', hl'⟩ := hs.scalar_right ⟨ha, hm, hl⟩
+      simp only at ha hm hl ha' hm' hl'
+      subst ha; subst hm; subst ha'; subst hm'
+      refine ⟨?_, ?_⟩
+      · rw [narrow_scalar hF b' hl']
+        exact evalRT_json_eq st F ρ (.map kvs) ⟨b, 0, 0⟩ ⟨b', 0, 0⟩ f f (by simpa [jsonR] using hj) rfl hl rfl hl'
+      · simp only [HasTyR]
+        exact Or.inr ⟨trivial, trivial, hl', hj⟩
   | .struct kvs, t, t', f, h, hs => by
     obtain ⟨b, m, a⟩ := t
     obtain ⟨b', m', a'⟩ := t'
@@ -174,7 +275,19 @@ theorem narrow_evalRT :
     simp only [evalRT, HasTyR]
     rw [elemArr_narrow hF, ih.1]
     exact ⟨rfl, ih.2⟩
-  | .split _ true _, _, _, _, h, _ => by simp [HasTyR] at h
+  | .split c true e, t, t', f, h, hs => by
+    obtain ⟨b, m, a⟩ := t
+    obtain ⟨b', m', a'⟩ := t'
+    simp only [HasTyR] at h
+    obtain ⟨hnm, he⟩ := h
+    have hm0 : m = 0 := hnm.mapDim
+    obtain ⟨hd1, hd2⟩ := hs.dims
+    simp only at hd1 hd2
+    subst hd1; subst hd2; subst hm0
+    have ih := narrow_evalRT e ⟨b, a + 1, 0⟩ ⟨b', a + 1, 0⟩ f he (hs.redim (a + 1) 0)
+    simp only [evalRT, HasTyR]
+    rw [elemMap_narrow hF, ih.1]
+    exact ⟨rfl, hnm.sub hst hs, ih.2⟩
   | .merge c false e, t, t', f, h, hs => by
     obtain ⟨b, m, a⟩ := t
     obtain ⟨b', m', a'⟩ := t'
@@ -191,7 +304,24 @@ theorem narrow_evalRT :
       apply List.map_congr_left
       intro ix _
       exact (narrow_evalRT e ⟨b, m, n⟩ ⟨b', m, n⟩ (fset f c ix) h.2.2 (hs.redim m n)).1
-  | .merge _ true _, _, _, _, h, _ => by simp [HasTyR] at h
+  | .merge c true e, t, t', f, h, hs => by
+    obtain ⟨b, m, a⟩ := t
+    obtain ⟨b', m', a'⟩ := t'
+    simp only [HasTyR] at h
+    obtain ⟨ha, hm, hns, he⟩ := h
+    obtain ⟨hd1, hd2⟩ := hs.dims
+    simp only at hd1 hd2 ha hm
+    subst hd1; subst hd2; subst ha
+    cases m with
+    | zero => exact absurd rfl hm
+    | succ k =>
+      simp only [evalRT, Nat.add_sub_cancel, narrow_obj hF, HasTyR, List.map_map]
+      refine ⟨?_, trivial, by simp, hns, (narrow_evalRT e ⟨b, 0, k⟩ ⟨b', 0, k⟩ f he (hs.redim 0 k)).2⟩
+      congr 1
+      apply List.map_congr_left
+      intro ix _
+      simp only [Function.comp_apply, Prod.mk.injEq, true_and]
+      exact (narrow_evalRT e ⟨b, 0, k⟩ ⟨b', 0, k⟩ (fset f c ix) he (hs.redim 0 k)).1
   | .disabled d v, t, t', f, h, hs => by
     simp only [HasTyR] at h
     have ih := narrow_evalRT v t t' f h.2 hs
@@ -277,36 +407,6 @@ def PathOk (st : StructTable) : Ty → List String → Prop
   | _, [] => True
   | t, f :: r => FieldOk st t f ∧ PathOk st (projTy1 st t f) r
 
-theorem pathTy_append (st : StructTable) (path : List String) :
-    ∀ (t : Ty) (f : String), pathTy st t (path ++ [f]) = projTy1 st (pathTy st t path) f := by
-  induction path with
-  | nil => intro t f; simp [pathTy]
-  | cons g r ih => intro t f; simp [pathTy, ih]
-
-theorem Sub.projTy1 {st : StructTable} (hst : StructsOk st) {t0 t : Ty} (h : Sub st t0 t) (f : String)
-    (ft : Ty) (hf : fieldTy st t.base f = some ft) : Sub st (projTy1 st t0 f) (projTy1 st t f) := by
-  obtain ⟨ps', p', hl', hp', hpn', hpt', _⟩ := fieldTy_mem st _ _ _ hf
-  obtain ⟨ps, hl, hview⟩ := Sub.members hst h ps' hl'
-  obtain ⟨p, hp, hpn, hfind, hsub⟩ := hview p' hp'
-  have hf0 : fieldTy st t0.base f = some p.ty := by
-    have := fieldTy_of_mem st hst t0.base ps hl p hp
-    rwa [hpn, hpn'] at this
-  obtain ⟨d1, d2⟩ := h.dims
-  obtain ⟨e1, e2⟩ := hsub.dims
-  unfold Martian.Dataflow.projTy1
-  rw [hf0, hf]
-  simp only
-  rw [hpt'] at hsub e1 e2
-  by_cases hz : t0.mapDim = 0
-  · have hz' : t.mapDim = 0 := by omega
-    simp only [hz, hz', if_true]
-    rw [← e1, ← e2, ← d2]
-    exact hsub.redim _ _
-  · have hz' : ¬ t.mapDim = 0 := by omega
-    simp only [hz, hz', if_false]
-    rw [← e2, ← d1, ← d2]
-    exact hsub.redim _ _
-
 section P
 variable (st : StructTable) (hst : StructsOk st) (F : Nat) (hF : NarrowFix st F) (ρ : Store)
 include hst hF
@@ -343,7 +443,13 @@ theorem proj1_evalRT :
   | .map kvs, t, fld, f, h, hfo => by
     obtain ⟨b, m, a⟩ := t
     simp only [HasTyR] at h
-    obtain ⟨ha, hm, hk⟩ := h
+    have h' : a = 0 ∧ m ≠ 0 ∧ HasTyRFields st ⟨b, 0, m - 1⟩ kvs := by
+      rcases h with h | ⟨_, _, hl, _⟩
+      · exact h
+      · -- an opaque type has no fields
+        obtain ⟨ft, hft, _⟩ := hfo
+        simp [fieldTy, hl] at hft
+    obtain ⟨ha, hm, hk⟩ := h'
     try simp only at ha hm
     subst ha
     cases m with
@@ -409,7 +515,28 @@ theorem proj1_evalRT :
     simp only [evalRT, bpR, HasTyR]
     rw [← elemArr_proj1, ih.1]
     exact ⟨rfl, ih.2⟩
-  | .split _ true _, _, _, _, h, _ => by simp [HasTyR] at h
+  | .split c true e, t, fld, f, h, hfo => by
+    obtain ⟨b, m, a⟩ := t
+    simp only [HasTyR] at h
+    obtain ⟨hnm, he⟩ := h
+    have hm0 : m = 0 := hnm.mapDim
+    subst hm0
+    obtain ⟨ft, hft, _⟩ := hfo
+    simp only at hft
+    have hsome : (fieldTy st b fld).isSome := by simp [hft]
+    have hnm2 := hnm.field fld hsome
+    have hft0 : ft.mapDim = 0 := by
+      have := hnm2.mapDim
+      simpa [Martian.Dataflow.projTy1, hft] using this
+    have hnmf : ∀ ft', fieldTy st b fld = some ft' → ft'.mapDim = 0 := by
+      intro ft' h'; rw [hft] at h'; cases h'; exact hft0
+    obtain ⟨e1, e2⟩ := projTy1_map st b a fld hnmf
+    have ih := proj1_evalRT e ⟨b, a + 1, 0⟩ fld f he ⟨ft, hft, fun _ => hft0⟩
+    rw [e1] at ih
+    rw [e2] at hnm2 ⊢
+    simp only [evalRT, bpR, HasTyR]
+    rw [← ih.1, Proofs.ResolverForks.elemMap_proj1]
+    exact ⟨rfl, hnm2, ih.2⟩
   | .merge c false e, t, fld, f, h, hfo => by
     obtain ⟨b, m, a⟩ := t
     simp only [HasTyR] at h
@@ -429,7 +556,36 @@ theorem proj1_evalRT :
       apply List.map_congr_left
       intro ix _
       exact ihf ix
-  | .merge _ true _, _, _, _, h, _ => by simp [HasTyR] at h
+  | .merge c true e, t, fld, f, h, hfo => by
+    obtain ⟨b, m, a⟩ := t
+    simp only [HasTyR] at h
+    obtain ⟨ha, hm, hns, he⟩ := h
+    try simp only at ha hm
+    subst ha
+    cases m with
+    | zero => exact absurd rfl hm
+    | succ k =>
+      obtain ⟨ft, hft, hmap⟩ := hfo
+      have hnmf : ∀ ft', fieldTy st b fld = some ft' → ft'.mapDim = 0 := by
+        intro ft' h'
+        simp only at hft
+        rw [hft] at h'
+        cases h'
+        exact hmap (by simp)
+      obtain ⟨e1, e2⟩ := projTy1_map st b k fld hnmf
+      have hns' := Proofs.ResolverForks.noSplitOf_bpR c fld e hns
+      have ih0 := (proj1_evalRT e ⟨b, 0, k⟩ fld f he ⟨ft, hft, by simp⟩).2
+      have ihf := fun ix => (proj1_evalRT e ⟨b, 0, k⟩ fld (fset f c ix) he ⟨ft, hft, by simp⟩).1
+      rw [e1]
+      rw [e2] at ih0 ihf
+      simp only [bpR, Proofs.ResolverForks.mkMerge_noSplit c true _ hns', evalRT, Nat.add_sub_cancel, proj1_obj,
+        HasTyR, List.map_map]
+      refine ⟨?_, trivial, by simp, hns', ih0⟩
+      congr 1
+      apply List.map_congr_left
+      intro ix _
+      simp only [Function.comp_apply, Prod.mk.injEq, true_and]
+      exact ihf ix
   | .disabled d v, t, fld, f, h, hfo => by
     simp only [HasTyR] at h
     have ih := proj1_evalRT v t fld f h.2 hfo
